@@ -17,15 +17,26 @@ def _alarm(signum, frame):
 
 
 class time_limit:
+    """SIGALRM based limit; may be nested (the outer limit keeps running)."""
+
     def __init__(self, secs):
         self.secs = secs
 
     def __enter__(self):
+        import time
+        self.t0 = time.monotonic()
+        self.prev = signal.getitimer(signal.ITIMER_REAL)[0]
         self.old = signal.signal(signal.SIGALRM, _alarm)
-        signal.setitimer(signal.ITIMER_REAL, self.secs)
+        secs = min(self.secs, self.prev) if self.prev > 0 else self.secs
+        signal.setitimer(signal.ITIMER_REAL, secs)
 
     def __exit__(self, *exc):
-        signal.setitimer(signal.ITIMER_REAL, 0)
+        import time
+        if self.prev > 0:
+            left = self.prev - (time.monotonic() - self.t0)
+            signal.setitimer(signal.ITIMER_REAL, max(left, 0.001))
+        else:
+            signal.setitimer(signal.ITIMER_REAL, 0)
         signal.signal(signal.SIGALRM, self.old)
         return False
 
@@ -64,6 +75,8 @@ def build(x):
         return lp.Pser([B(i) for i in x[1]], x[2], x[3])
     if name == 'Place':
         return lp.Place([B(i) for i in x[1]], x[2], x[3])
+    if name == 'Placep':
+        return lp.Placep([B(i) for i in x[1]], x[2], x[3])
     if name == 'Pn':
         return fp.Pn(B(x[1]), x[2])
     if name == 'Plen':
@@ -245,6 +258,42 @@ def real_take(pat, n, how='iter'):
     except Exception as e:
         return vals, False, e
     return vals, False, None
+
+
+def after_end(pat, n, k):
+    """History on ONE stream: pull to the end, poll k more times, all(),
+    reset(), pull again -> (first, values got after the end, second, exc)."""
+    m = mods()
+    stm = m['stm']
+    s = stm.stream(pat)
+
+    def pull():
+        out = []
+        for _ in range(n):
+            try:
+                out.append(s.next(None))
+            except stm.StopStream:
+                return out, True
+        return out, False
+    try:
+        first, ended = pull()
+        if not ended:
+            return first, None, None, None
+        post = []
+        for _ in range(k):
+            try:
+                post.append(s.next(None))
+            except stm.StopStream:
+                pass
+        if not post:
+            post = list(s.all())
+        s.reset()
+        second, _ = pull()
+        return first, post, second, None
+    except RealTimeout:
+        raise
+    except Exception as e:
+        return None, None, None, e
 
 
 def interleaved(pat, n, rng):
